@@ -158,7 +158,7 @@ PROPS = {
     },
     'C09': {
         'crate': 'biscuit-auth',
-        'quick': [r'c09_\w+'],
+        'quick': [r'c09_\w+', r'c10_authorize_(iterations_budget|time_budget_max)'],
         'thorough': [],
         'cap': {'quick': 600, 'thorough': 1800},
         'per_harness': {r'c09_\w+': {'unwindset': 'memcmp.0:40'}},
@@ -174,7 +174,7 @@ PROPS = {
         'thorough': [],
         'cap': {'quick': 600, 'thorough': 1800},
         'per_harness': {r'c13_\w+': {'unwindset': 'memcmp.0:40'}},
-        'functions': ['token::authorizer::Authorizer::snapshot (empty authorizer)', 'token::authorizer::snapshot::{authorizer_origin_to_proto_origin,proto_origin_to_authorizer_origin}'],
+        'functions': ['token::authorizer::Authorizer::snapshot (empty authorizer)', 'token::block::Block::translate (block-level scopes)', 'token::authorizer::snapshot::{authorizer_origin_to_proto_origin,proto_origin_to_authorizer_origin}'],
         'bounds': 'empty authorizer (no token, facts, rules, checks, policies); fact / iteration budgets and iteration count: any u64; time budget and time spent: any Duration; origin sets of up to 3 ids in 0..62 or the authorizer id',
         'stubs': ['alloc::fmt::format'],
         'out': 'the bulk of the property: symbol translation, reloading of blocks, facts per origin, policies, from_snapshot (strings + protobuf + whole-authorizer state) - only the numeric envelope and the origin encoding are decided',
@@ -182,7 +182,8 @@ PROPS = {
     },
     'C04': {
         'crate': 'biscuit-auth',
-        'quick': [r'c04_scope_\w+', r'c03_trust_scopes[12]'],
+        'quick': [r'c04_scope_\w+', r'c03_trust_scopes[12]', r'c03_load_\w+'],
+        'per_harness': {r'c03_load_\w+': {'unwindset': 'memcmp.0:40'}},
         'thorough': [r'c03_trust_\w+'],
         'cap': {'quick': 400, 'thorough': 1200},
         'functions': ['datalog::origin::TrustedOrigins::{default,from_scopes,contains}'],
